@@ -46,6 +46,21 @@ class UserFault(Exception):
 
 
 EXC["UserFault"] = UserFault
+# values a swept parameter takes in the three runs, by kind (numbers, text, sequences, None, numpy scalars / arrays)
+PVALS = {"int": [10, 20, 30], "float": [0.5, 1.5, 2.5], "str": ["aa", "bb", "cc"], "list": [[1, 2], [3, 4], [5, 6]], "bool": [True, False, True],
+         "npfloat": "numpy.float64"}
+
+
+def _pvals(kind):
+    import numpy as _np
+
+    if kind == "npfloat":
+        return list(_np.linspace(0.0, 1.0, 3))
+    if kind == "nparray":
+        return [_np.array([1.0, 2.0]), _np.array([3.0, 4.0]), _np.array([5.0, 6.0])]
+    return PVALS[kind]
+
+
 GROUPS = ["photon_collection", "charge_generation", "charge_collection", "readout_electronics"]
 
 
@@ -70,6 +85,10 @@ def tasks(tier, seed):
     for exc in names:
         for mode in ("exposure", "observation"):
             out.append({"fn": "crash", "kwargs": {"steps": 2, "models": 2 if tier == "quick" else 3, "mode": mode, "exc": exc}, "label": f"{mode}/all_exc/{exc}"})
+    # every kind of swept value (the notes render it, whatever it is)
+    for k, pkind in enumerate(PVALS):
+        if pkind != "int":
+            out.append({"fn": "crash", "kwargs": {"steps": 1 + k % 2, "models": 2, "mode": "observation", "exc": names[k % len(names)], "pkind": pkind}, "label": f"observation/values/{pkind}"})
     for exc in (names[:3] + ["StopIteration"]) if tier == "quick" else names:
         out.append({"fn": "fitness_crash", "kwargs": {"exc": exc}, "label": f"fitness/{exc}"})
     out.append({"fn": "dask_replay", "kwargs": {"n": 3 if tier == "quick" else 8}, "label": "witness/dask", "kind": "direct"})
@@ -94,7 +113,7 @@ def _pipeline(models):
     return DetectionPipeline(**kw), layout
 
 
-def _drive(steps, models, mode, exc_cls, fault, log):
+def _drive(steps, models, mode, exc_cls, fault, log, pkind="int"):
     """fault = (run, step, pos) — symbolic or concrete.  Returns (exception or None, result)."""
     import pyxel
     from pyxel.exposure import Exposure, Readout
@@ -117,7 +136,7 @@ def _drive(steps, models, mode, exc_cls, fault, log):
     if mode == "exposure":
         m = Exposure(readout=Readout(times=times))
     else:
-        m = Observation(parameters=[ParameterValues(key="pipeline.photon_collection.m0.arguments.p", values=[10, 20, 30])], readout=Readout(times=times))
+        m = Observation(parameters=[ParameterValues(key="pipeline.photon_collection.m0.arguments.p", values=_pvals(pkind))], readout=Readout(times=times))
     caught, result = None, None
     try:
         result = pyxel.run_mode(mode=m, detector=make_ccd(2, 2), pipeline=pipe)
@@ -128,11 +147,20 @@ def _drive(steps, models, mode, exc_cls, fault, log):
     return caught, result, marker, layout
 
 
-def crash(steps, models, mode, exc):
+def _same_value(a, b):
+    try:
+        import numpy as _np
+
+        return bool(_np.array_equal(_np.asarray(a), _np.asarray(b)))
+    except Exception:  # noqa: BLE001
+        return a == b
+
+
+def crash(steps, models, mode, exc, pkind="int"):
     r, i, j = vx.integer("fault_run"), vx.integer("fault_step"), vx.integer("fault_pos")
     log: list = []
-    caught, result, marker, layout = _drive(steps, models, mode, EXC[exc], (r, i, j), log)
-    lab = f"steps={steps},models={models},{exc}"
+    caught, result, marker, layout = _drive(steps, models, mode, EXC[exc], (r, i, j), log, pkind)
+    lab = f"steps={steps},models={models},{exc}" + ("" if pkind == "int" else f",{pkind}")
     nruns = 1 if mode == "exposure" else 3
     total = nruns * steps * models
     if caught is None:
@@ -152,11 +180,12 @@ def crash(steps, models, mode, exc):
     k = full.index((fr, fi, fj))
     vx.prove(f"C09/{mode}/no_later_model/{lab}", [t[:3] for t in log] == full[: k + 1])
     if mode == "observation":
-        val = [10, 20, 30][fr]
-        vx.prove(f"C09/observation/notes_params/{lab}", ("pipeline.photon_collection.m0.arguments.p" in notes) and (str(val) in notes))
+        val = _pvals(pkind)[fr]
+        shown = [str(v) for v in val] if pkind == "list" else [str(val)]
+        vx.prove(f"C09/observation/notes_params/{lab}", ("pipeline.photon_collection.m0.arguments.p" in notes) and all(x in notes for x in shown))
         vx.prove(f"C09/observation/later_runs_not_started/{lab}", all(t[0] <= fr for t in log))
         # the failing run used its own parameter value
-        vx.prove(f"C09/observation/run_saw_own_value/{lab}", all(t[3] == [10, 20, 30][t[0]] for t in log if t[2] == 0))
+        vx.prove(f"C09/observation/run_saw_own_value/{lab}", all(_same_value(t[3], _pvals(pkind)[t[0]]) for t in log if t[2] == 0))
     vx.observe("fault", [fr, fi, fj])
 
 
@@ -164,7 +193,7 @@ def fidelity_crash(kwargs, w):
     f = w["observed"].get("fault")
     log: list = []
     fault = tuple(f) if f is not None else (-1, -1, -1)
-    caught, result, marker, layout = _drive(kwargs["steps"], kwargs["models"], kwargs["mode"], EXC[kwargs["exc"]], fault, log)
+    caught, result, marker, layout = _drive(kwargs["steps"], kwargs["models"], kwargs["mode"], EXC[kwargs["exc"]], fault, log, kwargs.get("pkind", "int"))
     if f is None:
         return caught is None and result is not None, {}
     # the concrete run must behave like the symbolic one did on this path (whether or not that is what the property wants)
@@ -290,7 +319,8 @@ def replay(oid, kwargs, model, data):
         f = (int(model.get("fault_run", -1)), int(model.get("fault_step", -1)), int(model.get("fault_pos", -1)))
         log: list = []
         steps, models, mode, exc = kwargs["steps"], kwargs["models"], kwargs["mode"], kwargs["exc"]
-        caught, result, marker, layout = _drive(steps, models, mode, EXC[exc], f, log)
+        pkind = kwargs.get("pkind", "int")
+        caught, result, marker, layout = _drive(steps, models, mode, EXC[exc], f, log, pkind)
         nruns = 1 if mode == "exposure" else 3
         inside = 0 <= f[0] < nruns and 0 <= f[1] < steps and 0 <= f[2] < models
         det = {"fault": list(f), "caught": repr(caught), "notes": getattr(caught, "__notes__", None), "calls": len(log)}
@@ -303,7 +333,9 @@ def replay(oid, kwargs, model, data):
         full = [(rr, ss, mm) for rr in range(nruns) for ss in range(steps) for mm in range(models)]
         bad = bad or [t[:3] for t in log] != full[: full.index(f) + 1]
         if mode == "observation":
-            bad = bad or str([10, 20, 30][f[0]]) not in notes
+            val = _pvals(pkind)[f[0]]
+            shown = [str(v) for v in val] if pkind == "list" else [str(val)]
+            bad = bad or any(x not in notes for x in shown)
         return bad, det
     if data["fn"] == "dask_replay":
         return True, {"note": "concrete replay result (already executed on the real code)", **data.get("info", {})}
